@@ -64,7 +64,11 @@ def run_idwidth(prog, ctx=None):
     w = prog.func("mpt_message_id2buf")
     if w is None:
         raise Broken("anchor missing: mpt_message_id2buf")
-    marker = [nd for b, i, nd in w.walk_all() if nd.get("k") == "bin" and nd.get("op") == "&" and cval(nd["b"]) == 0x80]
+    # the marker test in any spelling:  x & 0x80  /  x > 127  /  x >= 128  on a byte
+    marker = [nd for b, i, nd in w.walk_all() if nd.get("k") == "bin" and (
+        (nd.get("op") == "&" and (cval(nd["b"]) == 0x80 or cval(nd["a"]) == 0x80))
+        or (nd.get("op") == ">" and cval(nd["b"]) == 127) or (nd.get("op") == ">=" and cval(nd["b"]) == 128)
+        or (nd.get("op") == "<" and cval(nd["a"]) == 127) or (nd.get("op") == "<=" and cval(nd["a"]) == 128))]
     res.ob("mpt_message_id2buf:marker-test", bool(marker), w, w.line, "" if marker else "no test of the reply marker bit (0x80) in the id writer")
     return res
 
